@@ -73,12 +73,19 @@ pub fn detect_parser_type(uri: &str) -> Option<RegistryType> {
 }
 
 fn is_github_actions_workflow(uri: &str) -> bool {
-    let is_github_dir = uri.contains(".github/workflows/")
-        || uri.contains(".github\\workflows\\")
-        || uri.contains(".github/actions/")
-        || uri.contains(".github\\actions\\");
+    let is_github_dir = contains_dir(uri, ".github/workflows/")
+        || contains_dir(uri, ".github\\workflows\\")
+        || contains_dir(uri, ".github/actions/")
+        || contains_dir(uri, ".github\\actions\\");
     let is_yaml = uri.ends_with(".yml") || uri.ends_with(".yaml");
     is_github_dir && is_yaml
+}
+
+/// Check if `dir` occurs in `uri` at the start of a path component, so that
+/// look-alike directories such as `x.github/workflows/` are not matched
+fn contains_dir(uri: &str, dir: &str) -> bool {
+    uri.match_indices(dir)
+        .any(|(i, _)| i == 0 || uri[..i].ends_with(['/', '\\']))
 }
 
 /// Registry-specific additional information
